@@ -60,3 +60,25 @@ for _kind in ("full", "diag", "identity", "identity-diag", "nn"):
         _id = f"{CLS[_kind]}.set_y/{'R=N' if _paired else 'R=1'}"
         REG.ob(_id, sorts=(["N", "Nx", "Dx", "Dy"] if _kind in ("full", "diag", "nn") else ["N", "Nx", "Dy"]) + (["Du"] if _kind == "nn" else []),
                funcs=[f.format(cls=CLS[_kind]) for f in FUNCS] + (NNF if _kind == "nn" else []))(_mk(_kind, _paired))
+
+
+def _mk_refusal(kind):
+    """model classes whose p(y|x) is NOT a conjugate factor in x document that set_y is refused (never a silently wrong factor)"""
+    def ob(w):
+        y = w.arr("y", 1, "Dy")
+        if kind in ("rbf", "lsem"):
+            from .C16 import gen_feature_cond
+            obj = gen_feature_cond(w, kind)[0]
+        else:
+            from .C17 import gen_hetero
+            obj = gen_hetero(w, kind, "wide")[0]
+        w.raises("set_y-refused", (NotImplementedError, AttributeError), lambda: obj.set_y(y))
+    return ob
+
+
+for _kind, _cls, _base in (("rbf", "LRBFGaussianConditional", "LConjugateFactorMGaussianConditional"), ("lsem", "LSEMGaussianConditional", "LConjugateFactorMGaussianConditional"),
+                           ("exp", "HeteroscedasticExpConditional", "HeteroscedasticConditional"), ("relu", "HeteroscedasticReLUConditional", "HeteroscedasticConditional")):
+    REG.ob(f"{_cls}.set_y/refusal", sorts=["Dy", "Dx", "Dk"] + (["Dr"] if _base.startswith("Hetero") else []),
+           order=({("Dy", "Dk+Dr"): False, ("Dk", "Dk+Dr"): False} if _base.startswith("Hetero") else {}),
+           sizes=([dict(Dy=2, Dx=3, Dk=2, Dr=2)] if _base.startswith("Hetero") else None),
+           funcs=[f"approximate_conditional.{_base}.set_y"])(_mk_refusal(_kind))
